@@ -37,7 +37,7 @@ pub const SPECS: &[Spec] = &[
         rule: "same histories; need_build + Reader::open under all 7 metrics after every op vs 3-state automaton; non-trivial+distinct = distinct logical database states in which the automaton was compared" },
     Spec { prop: "C07", engine: "H", level: "exploration", quick: 4000, thorough: 80_000,
         rule: "histories over 2-4 indexes from {0,1,2,255,256,65534,65535}; other indexes' key ranges byte-compared around every op; non-trivial+distinct = distinct logical states of multi-index databases compared" },
-    Spec { prop: "C14", engine: "H", level: "exploration", quick: 1200, thorough: 30_000,
+    Spec { prop: "C14", engine: "H", level: "exploration", quick: 600, thorough: 8_000,
         rule: "histories with >= 200 items, memory hints from 0 to ample, 4 page-placement models; build must end Ok within the poll-tick budget, then C01+C02; non-trivial+distinct = distinct logical states produced by builds that ran with a memory hint" },
     Spec { prop: "C15", engine: "H", level: "exploration", quick: 5000, thorough: 100_000,
         rule: "grow/shrink histories, n_trees 1..20 or unset, split_after 1..50 or unset, dim 1 over-weighted; tree count and bucket bound after every build; non-trivial+distinct = distinct forest shapes checked" },
@@ -153,8 +153,9 @@ pub fn worker_main(args: &[String]) -> i32 {
     0
 }
 
-/// Backstop for loops that never poll: 120 s of wall-clock per run, or 20 s without a single tick
-/// of the logical clock (cancel polls, progress calls, op boundaries, intercepted syscalls).
+/// Backstop for loops that never poll: 300 s of wall-clock per run, or 45 s without a single heartbeat
+/// (ticks of the logical clock - cancel polls, progress calls, op boundaries, intercepted syscalls - and
+/// units of harness-side checking work). Generous on purpose: a loaded machine must not look like a hang.
 fn spawn_watchdog(current: std::sync::Arc<std::sync::atomic::AtomicU64>, started: std::sync::Arc<std::sync::Mutex<Instant>>) {
     std::thread::spawn(move || {
         let mut last_ticks = u64::MAX;
@@ -167,12 +168,12 @@ fn spawn_watchdog(current: std::sync::Arc<std::sync::atomic::AtomicU64>, started
                 last_change = Instant::now();
                 continue;
             }
-            let ticks = crate::ctx::active().map_or(0, |c| c.ticks.load(std::sync::atomic::Ordering::SeqCst));
+            let ticks = crate::ctx::active().map_or(0, |c| c.heartbeat.load(std::sync::atomic::Ordering::SeqCst));
             if ticks != last_ticks {
                 last_ticks = ticks;
                 last_change = Instant::now();
             }
-            if started.lock().unwrap().elapsed().as_secs() > 120 || last_change.elapsed().as_secs() > 20 {
+            if started.lock().unwrap().elapsed().as_secs() > 300 || last_change.elapsed().as_secs() > 45 {
                 println!("H {i}");
                 std::process::exit(3);
             }
@@ -272,7 +273,7 @@ impl Agg {
 
 /// Run `n` seeded runs of `prop` on `workers` processes.
 pub fn run_batch(prop: &str, tier: &str, vseed: u64, n: u64, workers: u64) -> Agg {
-    let exe = std::env::current_exe().unwrap();
+    let exe = std::path::PathBuf::from("/proc/self/exe");
     let mut agg = Agg::default();
     let (tx, rx) = std::sync::mpsc::channel::<(u64, String)>();
     let mut handles = Vec::new();
@@ -354,7 +355,7 @@ pub fn run_batch(prop: &str, tier: &str, vseed: u64, n: u64, workers: u64) -> Ag
             continue;
         }
         if let Some(i) = v.get("hang") {
-            agg.died.push((i.as_u64().unwrap(), "watchdog: 120 s of wall-clock or 20 s without a tick of the logical clock".to_string()));
+            agg.died.push((i.as_u64().unwrap(), "watchdog: 300 s of wall-clock or 45 s without a heartbeat".to_string()));
             if agg.violations.len() + agg.died.len() >= 40 {
                 stop.store(true, std::sync::atomic::Ordering::SeqCst);
             }
@@ -381,7 +382,7 @@ pub fn run_batch(prop: &str, tier: &str, vseed: u64, n: u64, workers: u64) -> Ag
 // ------------------------------------------------------------------ subprocess execution of one plan
 
 pub fn exec_plan_subprocess(plan: &Plan) -> Option<Outcome> {
-    let exe = std::env::current_exe().unwrap();
+    let exe = std::path::PathBuf::from("/proc/self/exe");
     let dir = workdir_base();
     std::fs::create_dir_all(&dir).ok()?;
     let path = dir.join(format!("cand-{}.json", std::process::id()));
@@ -675,7 +676,7 @@ pub fn check_main(prop: &str, tier: &str) -> i32 {
         return crate::engine_c13::check(tier);
     }
     let (engine, level, n, rule) = match prop {
-        "C08" => ("A", "exploration", if tier == "thorough" { 40_000 } else { 1500 }, crate::engine_a::RULE),
+        "C08" => ("A", "exploration", if tier == "thorough" { 40_000 } else { 3000 }, crate::engine_a::RULE),
         "C09" => ("K", "fault_enumeration", if tier == "thorough" { 6000 } else { 300 }, crate::engine_k::RULE),
         "C10" => ("F", "fault_enumeration", if tier == "thorough" { 2500 } else { 60 }, crate::engine_f::RULE),
         _ => match spec(prop) {
@@ -698,7 +699,7 @@ pub fn check_main(prop: &str, tier: &str) -> i32 {
     let mut extra = json!({});
     if prop == "C09" {
         // cross-validate the crash model against real SIGKILL in child processes
-        let exe = std::env::current_exe().unwrap();
+        let exe = std::path::PathBuf::from("/proc/self/exe");
         let plans = if tier == "thorough" { "50" } else { "6" };
         let out = Command::new(exe).args(["fidelity", plans]).stderr(Stdio::inherit()).output().expect("fidelity");
         let text = String::from_utf8_lossy(&out.stdout).to_string();
@@ -897,7 +898,7 @@ pub fn replay_main(path: &str) -> i32 {
     crate::init_process();
     if let Some(v) = std::fs::read(path).ok().and_then(|b| serde_json::from_slice::<serde_json::Value>(&b).ok()) {
         if v["engine"] == "shuttle" {
-            let exe = std::env::current_exe().unwrap();
+            let exe = std::path::PathBuf::from("/proc/self/exe");
             let st = Command::new(exe).args(["c13-micro", "replay", path]).status().unwrap();
             if st.code() == Some(1) {
                 println!("VIOLATION property=C13 replay={path}");
